@@ -85,6 +85,31 @@ type EnvCase struct {
 	Cfg  string    `json:"cfg,omitempty"`
 	Recs []RecInfo `json:"recs,omitempty"`
 	Revs []RevInfo `json:"revs,omitempty"`
+	// case-level facts for the monitors
+	SealDup  string   `json:"sealdup,omitempty"` // a (key, nonce) pair that was used twice
+	KmsBad   []string `json:"kmsbad,omitempty"`  // EncryptKey inputs that are not key material
+	TornDown bool     `json:"torn_down"`
+	NSeals   int      `json:"nseals"`
+}
+
+// finishCase records the case-level facts.
+func (x *envExec) finishCase(cs *EnvCase) {
+	cs.Recs = x.recInfo
+	cs.Revs = x.revs
+	seen := map[string]int{}
+	for i, s := range x.crypto.Seals {
+		k := s.Key + "|" + s.Nonce
+		if j, ok := seen[k]; ok && cs.SealDup == "" {
+			cs.SealDup = fmt.Sprintf("AEAD encrypt calls #%d and #%d used the same key and nonce", j, i)
+		}
+		seen[k] = i
+	}
+	cs.NSeals = len(x.crypto.Seals)
+	for _, in := range x.kmsSpy.EncInputs {
+		if in[0] != "K" {
+			cs.KmsBad = append(cs.KmsBad, fmt.Sprint(in))
+		}
+	}
 }
 
 type RecInfo struct {
@@ -150,6 +175,13 @@ func newEnvExec(t0 int64) *envExec {
 	x.logger = &spy.Logger{}
 	ae.VerifSetNow(func() time.Time { return time.Unix(0, x.now) })
 	return x
+}
+
+// enableLeakScan turns on debug-log capture and the plaintext scan of everything leaving the SDK.
+func (x *envExec) enableLeakScan() {
+	x.scanLeak = true
+	x.logger.Keep = true
+	aelog.SetLogger(x.logger)
 }
 
 func (x *envExec) close() {
